@@ -29,7 +29,7 @@
 (* Events are judged without blocking (bad ones get a class).                  *)
 EXTENDS Exchange, TraceBase
 
-VARIABLES l, x, cur, out        \* out: buffers taken from the pool into which nothing has been received yet
+VARIABLES l, x, cur, sentAt, out        \* out: buffers taken from the pool into which nothing has been received yet
 
 Ev == Trace[l]
 MarkBadC(i, c) == MarkBad(i) /\ TLCSet(3, Append(TLCGet(3), <<i, c>>))
@@ -39,7 +39,15 @@ RoundOf(i)   == i % 8
 ClientOf(i)  == i \div 8
 NameOf(c, r) == <<99, 65 + (c \div 8), 65 + (c % 8), 114, 65 + r, 46, 101, 120, 99, 104, 46>>     \* c<C><C>r<R>.exch.
 IpOf(c, r)   == <<10, c, r, (c + r) % 256>>
-TokOf(c, r)  == <<c, r, (c * 7 + r) % 256, 255 - c>>
+\* requests differ in size: the token is padded (the recorder's padLen / instTok)
+ReqBase == 73
+PadMax  == 512 - ReqBase
+PadLen(c, r) == CASE r % 4 = 0 -> c % 6
+                  [] r % 4 = 1 -> PadMax - (c % 3)
+                  [] r % 4 = 2 -> (c * 37 + r * 101) % (PadMax + 1)
+                  [] OTHER     -> IF c % 2 = 0 THEN PadMax ELSE 0
+TokOf(c, r)  == <<c, r, (c * 7 + r) % 256, 255 - c>> \o [i \in 1..PadLen(c, r) |-> (c * 13 + r * 7 + i) % 256]
+First4(t)    == SubSeq(t, 1, 4)
 IdOf(c, r)   == 1000 + c * 8 + r
 ReplyTokOf(t) == [i \in 1..Len(t) |-> (t[Len(t) + 1 - i] + 1) % 256]
 FieldsOf(c, r) == [id |-> IdOf(c, r), qname |-> NameOf(c, r), ip |-> IpOf(c, r), tok |-> TokOf(c, r)]
@@ -73,7 +81,10 @@ FieldsOfInst(i) == FieldsOf(ClientOf(i), RoundOf(i))
 
 Pooled(e) == e.tr \in {"udp", "pc"}
 
-Init == l = 1 /\ x = XInit /\ cur = [c \in CIds |-> -1] /\ out = {} /\ HWInit /\ TLCSet(3, <<>>)
+Init == l = 1 /\ x = XInit /\ cur = [c \in CIds |-> -1] /\ sentAt = [i \in TraceClients |-> 0] /\ out = {} /\ HWInit /\ TLCSet(3, <<>>)
+
+\* the octets client instance i put on the wire
+SentWire(i) == Trace[sentAt[i]].wire
 
 HandleEvent ==
   LET c == Ev.c IN
@@ -85,23 +96,25 @@ HandleEvent ==
     ELSE /\ x' = ServeOne(x, i)
          /\ LET ff == ForeignField(Ev.req1, ClientOf(i), RoundOf(i)) IN
             IF ff # "" THEN MarkBadC(l, "handler-saw-foreign-request:" \o ff)
+            ELSE IF Ev.wire # SentWire(i) THEN MarkBadC(l, "handler-request-octets-differ")
             ELSE IF Ev.req2 # Ev.req1 \/ ~Ev.same THEN MarkBadC(l, "request-changed-under-handler")
             ELSE TRUE
   ELSE
     \* datagram transports: the handler must have been given one of the datagrams received from c whose buffer
     \* has been released; the machine decoded each of them before the release
     LET P == Pending(x, c)
-        M == { t \in P : Ev.req1 = FieldsOfInst(x.tasks[t].req) } IN
+        M == { t \in P : x.tasks[t].req.who # 0 /\ Ev.req1 = FieldsOfInst(x.tasks[t].req.who) } IN
     IF P = {} THEN MarkBadC(l, "handler-invoked-without-received-request") /\ UNCHANGED x
     ELSE LET t == IF M # {} THEN MinOf(M) ELSE MinOf(P)
-             i == x.tasks[t].req
+             i == x.tasks[t].from
              s2 == Reply(Handle(x, t), t) IN
       /\ x' = (IF Assert(NoMixing(s2), "Exchange.tla mixes requests") THEN Prune(s2) ELSE s2)
       /\ IF M = {} THEN
            \* whose request was it?  the one received later into the same buffer: the buffer was recycled under the decoder
-           IF x.buf[x.tasks[t].b] # i /\ x.buf[x.tasks[t].b] # 0 /\ Ev.req1 = FieldsOfInst(x.buf[x.tasks[t].b])
+           IF x.buf[x.tasks[t].b].who # i /\ x.buf[x.tasks[t].b].who # 0 /\ Ev.req1 = FieldsOfInst(x.buf[x.tasks[t].b].who)
              THEN MarkBadC(l, "handler-saw-request-from-recycled-buffer")
              ELSE MarkBadC(l, "handler-saw-foreign-request:" \o ForeignField(Ev.req1, ClientOf(i), RoundOf(i)))
+         ELSE IF Ev.wire # SentWire(i) THEN MarkBadC(l, "handler-request-octets-differ")      \* every octet, the length included
          ELSE IF Ev.req2 # Ev.req1 \/ ~Ev.same THEN MarkBadC(l, "request-changed-under-handler")
          ELSE TRUE
 
@@ -112,42 +125,48 @@ Next ==
   /\ CASE Ev.ev = "send" ->
             LET i == Inst(Ev.c, Ev.round) IN
             /\ cur' = [cur EXCEPT ![Ev.c] = i]
+            /\ sentAt' = [sentAt EXCEPT ![i] = l]
             /\ UNCHANGED out
-            /\ IF Ev.req # FieldsOf(Ev.c, Ev.round) THEN MarkBadC(l, "recorder-send-fields") /\ UNCHANGED x
-               ELSE IF Ev.try = 0 /\ CanSend(x, i) THEN x' = Send(x, i)
+            /\ IF Ev.req # FieldsOf(Ev.c, Ev.round) \/ Len(Ev.wire) # ReqBase + PadLen(Ev.c, Ev.round) \/ Len(Ev.wire) > Cap
+                 THEN MarkBadC(l, "recorder-send-fields") /\ UNCHANGED x
+               ELSE IF Ev.try = 0 /\ CanSend(x, i) THEN x' = Send(x, i, Len(Ev.wire))
                ELSE IF Ev.try > 0 /\ CanResend(x, i) THEN x' = Resend(x, i)
                ELSE MarkBadC(l, "recorder-send-order") /\ UNCHANGED x
        [] Ev.ev = "get" ->        \* pool.get hook: the buffer leaves the pool
-            /\ UNCHANGED <<x, cur>>
+            /\ UNCHANGED <<x, cur, sentAt>>
             /\ IF Ev.buf \in x.pool /\ Ev.buf \notin out THEN out' = out \cup {Ev.buf}
                ELSE MarkBadC(l, "buffer-handed-out-while-in-use") /\ UNCHANGED out
        [] Ev.ev = "recv" ->       \* a datagram from client c was read into the buffer (seen by the DecorateReader)
-            /\ UNCHANGED cur
+            /\ UNCHANGED <<cur, sentAt>>
             /\ IF ~Pooled(Ev) THEN UNCHANGED <<x, out>>
                ELSE IF Ev.buf \notin out THEN MarkBadC(l, "received-into-a-buffer-not-taken-from-the-pool") /\ UNCHANGED <<x, out>>
                ELSE IF Ev.inst \notin TraceClients \/ ClientOf(Ev.inst) # Ev.c \/ x.net[Ev.inst] = 0
                     THEN MarkBadC(l, "recorder-recv-unsent") /\ UNCHANGED <<x, out>>
-               ELSE x' = Recv(x, Ev.buf, Ev.inst) /\ out' = out \ {Ev.buf}
+               ELSE /\ x' = Recv(x, Ev.buf, Ev.inst) /\ out' = out \ {Ev.buf}
+                    \* the read must have taken every octet the client sent (the buffer has room for Cap)
+                    /\ IF Ev.len = Taken(x, Ev.buf, Ev.inst) THEN TRUE
+                       ELSE IF Ev.len < x.size[Ev.inst] THEN MarkBadC(l, "request-cut-on-receive-into-recycled-buffer")
+                       ELSE MarkBadC(l, "received-more-than-was-sent")
        [] Ev.ev = "put" ->        \* pool.put hook: what the server knows of the datagram it knows now (Decode), then the buffer is free
-            /\ UNCHANGED cur
+            /\ UNCHANGED <<cur, sentAt>>
             /\ IF Ev.buf \in out THEN out' = out \ {Ev.buf} /\ UNCHANGED x       \* the read failed, nothing was received
                ELSE IF Holding(x, Ev.buf) # {} THEN
                  LET t == MinOf(Holding(x, Ev.buf)) IN x' = Release(Decode(x, t), t) /\ UNCHANGED out
                ELSE MarkBadC(l, "buffer-put-back-twice") /\ UNCHANGED <<x, out>>
-       [] Ev.ev = "handle" -> HandleEvent /\ UNCHANGED <<cur, out>>
+       [] Ev.ev = "handle" -> HandleEvent /\ UNCHANGED <<cur, sentAt, out>>
        [] Ev.ev = "crecv" ->
-            /\ UNCHANGED <<cur, out>>
+            /\ UNCHANGED <<cur, sentAt, out>>
             /\ LET i == Inst(Ev.c, Ev.round)
-                   rep == [to |-> i, body |-> ReplyFor(i)] IN
+                   rep == [to |-> i, body |-> ReplyFor(Whole(x, i))] IN
                IF i \notin TraceClients \/ ~CanClientRecv(x, i, rep) THEN MarkBadC(l, "reply-without-handler") /\ UNCHANGED x
                ELSE
                  /\ x' = ClientRecv(x, i, rep)
                  /\ IF Ev.req.id # IdOf(Ev.c, Ev.round) THEN MarkBadC(l, "client-got-foreign-reply:id")
                     ELSE IF Ev.req.qname # NameOf(Ev.c, Ev.round) THEN MarkBadC(l, "client-got-foreign-reply:qname")
-                    ELSE IF Ev.req.tok # ReplyTokOf(TokOf(Ev.c, Ev.round)) THEN MarkBadC(l, "client-got-foreign-reply:token")
+                    ELSE IF Ev.req.tok # ReplyTokOf(First4(TokOf(Ev.c, Ev.round))) THEN MarkBadC(l, "client-got-foreign-reply:token")
                     ELSE TRUE
-       [] Ev.ev = "lost" -> UNCHANGED <<x, cur, out>>
-       [] OTHER -> MarkBadC(l, "unknown-event") /\ UNCHANGED <<x, cur, out>>
+       [] Ev.ev = "lost" -> UNCHANGED <<x, cur, sentAt, out>>
+       [] OTHER -> MarkBadC(l, "unknown-event") /\ UNCHANGED <<x, cur, sentAt, out>>
 
 \* the machine itself never mixes (Decode before Release): checked along the way
 ModelSane == NoMixing(x) /\ BufferOwned(x)
